@@ -107,6 +107,22 @@ func runC11(tier string, _ []string) int {
 			for j := range ps {
 				ps[j] = c11Point(r, types)
 			}
+			if r.Chance(0.2) {
+				// one small index deleted (or set) two or three times in the same batch, under both spellings
+				// of key 0 and with different odd / even tombstone counts
+				t := types[r.Intn(len(types))]
+				k := []string{"0", "1", "2", "3", "4", "5"}[r.Intn(6)]
+				for q := 0; q < 2+r.Intn(2); q++ {
+					p := c11Point(r, []string{t})
+					p.Key = k
+					if k == "0" && r.Chance(0.5) {
+						p.Key = ""
+					}
+					p.Tombstone = []int{1, 3, 1, 0, 2, -1}[r.Intn(6)]
+					ps = append(ps, p)
+				}
+				r.Shuffle(len(ps), func(a, b int) { ps[a], ps[b] = ps[b], ps[a] })
+			}
 			return ps
 		}
 		pts, epts := mkList(declP), mkList(declE)
